@@ -439,6 +439,18 @@ struct BodyWriter {
       }
 
       if (auto ICE = dyn_cast<ImplicitCastExpr>(E)) {
+         if (ICE->getCastKind() == CK_LValueToRValue) {
+            // keep the read when the location is computed (call returning a reference, subscript, deref):
+            // the value must be taken at this point, not when it is used later
+            const Expr* sub = ICE->getSubExpr()->IgnoreParens();
+            if (isa<CallExpr>(sub) or isa<ArraySubscriptExpr>(sub)
+                or (isa<UnaryOperator>(sub) and cast<UnaryOperator>(sub)->getOpcode() == UO_Deref)) {
+               o["k"] = "cast";
+               o["ck"] = "LValueToRValue";
+               o["e"] = XE(ICE->getSubExpr());
+               return std::move(o);
+            }
+         }
          switch (ICE->getCastKind()) {
          case CK_LValueToRValue: case CK_NoOp: case CK_FunctionToPointerDecay:
          case CK_ConstructorConversion: case CK_UserDefinedConversion:
